@@ -1141,12 +1141,28 @@ func (x *Exec) obligeSplit(s *State, kind, label string, goal *Term, text, pos s
 		}
 		return
 	}
+	if goal.Op == "=>" && (goal.Args[1].Op == "forall" || goal.Args[1].Op == "=>") {
+		// move the hypothesis into the path condition of a private copy and continue with the conclusion
+		c := s.clone()
+		c.assume(goal.Args[0])
+		x.obligeSplit(c, kind, label, goal.Args[1], text, pos)
+		return
+	}
+	if goal.Op == "forall" && len(goal.Pats) == 0 {
+		m := map[string]*Term{}
+		for _, b := range goal.Bind {
+			m[b.Op] = x.fresh("sk."+b.Op, b.Sort)
+		}
+		x.obligeSplit(s, kind, label, subst(goal.Args[0], m), text, pos)
+		return
+	}
 	x.oblige(s, kind, label, goal, text, pos)
 }
 
 // assignTarget describes one entry of an assigns clause, resolved in the pre-state.
 type assignTarget struct {
 	Var  string  // state variable
+	Sort string  // its sort (when known at resolution time)
 	Idx  []*Term // nil => whole variable; else cell path: for heap arrays [ref]; for maps [ref, key]
 	Text string
 }
@@ -1174,9 +1190,9 @@ func (x *Exec) resolveAssign(e *SExpr, env *TrEnv) []assignTarget {
 			return []assignTarget{{Var: e.Name, Text: e.Name}}
 		}
 		// package-level variable of this package
-		if obj := x.fi.Pkg.Types.Scope().Lookup(e.Name); obj != nil {
+		if obj := env.pkgScope(x).Lookup(e.Name); obj != nil {
 			if v, ok := obj.(*types.Var); ok {
-				return []assignTarget{{Var: x.u.globalVar(v), Text: e.Name}}
+				return []assignTarget{{Var: x.u.globalVar(v), Sort: x.u.sortOf(v.Type()), Text: e.Name}}
 			}
 		}
 		// a local/param of heap struct type: all fields of that cell
@@ -1202,7 +1218,7 @@ func (x *Exec) resolveAssign(e *SExpr, env *TrEnv) []assignTarget {
 				}
 			}
 			// Type.field : whole heap array of a struct type of this package
-			if obj := x.fi.Pkg.Types.Scope().Lookup(e.Args[0].Name); obj != nil {
+			if obj := env.pkgScope(x).Lookup(e.Args[0].Name); obj != nil {
 				if tn, ok := obj.(*types.TypeName); ok {
 					if n, ok := tn.Type().(*types.Named); ok {
 						return []assignTarget{{Var: x.u.fieldVar(n, e.Name), Text: e.Args[0].Name + "." + e.Name}}
@@ -1215,7 +1231,13 @@ func (x *Exec) resolveAssign(e *SExpr, env *TrEnv) []assignTarget {
 		if n == nil {
 			panic(unsupported{fmt.Sprintf("%s: assigns target %s.%s: base has no struct type", e.Pos, e.Args[0].Name, e.Name)})
 		}
-		return []assignTarget{{Var: x.u.fieldVar(n, e.Name), Idx: []*Term{base}, Text: e.Name}}
+		fsort := ""
+		if st, ok := n.Underlying().(*types.Struct); ok {
+			if ft := fieldType(st, e.Name); ft != nil {
+				fsort = arraySort(SRef, x.u.sortOf(ft))
+			}
+		}
+		return []assignTarget{{Var: x.u.fieldVar(n, e.Name), Sort: fsort, Idx: []*Term{base}, Text: e.Name}}
 	case "index":
 		base := e.Args[0]
 		idx := x.trExpr(e.Args[1], env)
@@ -1228,8 +1250,9 @@ func (x *Exec) resolveAssign(e *SExpr, env *TrEnv) []assignTarget {
 		bt := x.trExpr(base, env)
 		if bt.GoType != nil {
 			if mt, ok := bt.GoType.Underlying().(*types.Map); ok {
-				dn, vn, _, _ := x.u.mapVars(mt)
-				return []assignTarget{{Var: dn, Idx: []*Term{bt, idx}, Text: "map cell"}, {Var: vn, Idx: []*Term{bt, idx}, Text: "map cell"}}
+				dn, vn, ks, vs := x.u.mapVars(mt)
+				return []assignTarget{{Var: dn, Sort: arraySort(SRef, arraySort(ks, SBool)), Idx: []*Term{bt, idx}, Text: "map cell"},
+					{Var: vn, Sort: arraySort(SRef, arraySort(ks, vs)), Idx: []*Term{bt, idx}, Text: "map cell"}}
 			}
 		}
 		panic(unsupported{fmt.Sprintf("%s: unsupported indexed assigns target", e.Pos)})
@@ -1240,8 +1263,8 @@ func (x *Exec) resolveAssign(e *SExpr, env *TrEnv) []assignTarget {
 				if x.isHeapStructType(pt.Elem()) {
 					return x.allFieldsOf(p)
 				}
-				pv, _ := x.u.ptrVar(pt.Elem())
-				return []assignTarget{{Var: pv, Idx: []*Term{p}, Text: "*p"}}
+				pv, ps := x.u.ptrVar(pt.Elem())
+				return []assignTarget{{Var: pv, Sort: arraySort(SRef, ps), Idx: []*Term{p}, Text: "*p"}}
 			}
 		}
 	}
@@ -1263,7 +1286,7 @@ func (x *Exec) allFieldsOf(ref *Term) []assignTarget {
 	}
 	var out []assignTarget
 	for i := 0; i < st.NumFields(); i++ {
-		out = append(out, assignTarget{Var: x.u.fieldVar(n, st.Field(i).Name()), Idx: []*Term{ref}, Text: st.Field(i).Name()})
+		out = append(out, assignTarget{Var: x.u.fieldVar(n, st.Field(i).Name()), Sort: arraySort(SRef, x.u.sortOf(st.Field(i).Type())), Idx: []*Term{ref}, Text: st.Field(i).Name()})
 	}
 	return out
 }
@@ -1278,8 +1301,11 @@ func (x *Exec) applyHavoc(s *State, targets []assignTarget) {
 			}
 		}
 		cur := x.getStAny(s, t.Var)
+		if cur == nil && t.Sort != "" {
+			cur = x.getSt(s, t.Var, t.Sort)
+		}
 		if cur == nil {
-			continue
+			panic(unsupported{"assigns target " + t.Var + " has unknown sort"})
 		}
 		switch len(t.Idx) {
 		case 0:
